@@ -113,7 +113,7 @@ class CheckerWrapper(FnSpec):
     am = F_
     hints = {}
     kinds = {"id_func": "int"}
-    free = {"func": None, "id_func": None, "param_names": "list", "kwdefaults": "dict", "wrapper": None}
+    free = {"func": None, "id_func": None, "param_names": "list", "kwdefaults": "dict", "wrapper": None, "positional_only": "set"}
     trace = True
     blocks = {"_assert_preconditions": "Pre", "_capture_old": "Cap", "_assert_postconditions": "Post"}
 
@@ -136,8 +136,8 @@ class CheckerWrapper(FnSpec):
         i, j = z3.Int("i!dn"), z3.Int("j!dn")
         return [
             ("closure.id_func", a["id_func"].t == IDOF(a["func"].t)),
-            ("closure.param_names_distinct", distinct_names(st, a["param_names"].t)),
-            ("closure.kwdefaults_is_a_dict", wf_dict(st, a["kwdefaults"].t)),
+            ("python.param_names_distinct", distinct_names(st, a["param_names"].t)),
+            ("python.kwdefaults_is_a_dict", wf_dict(st, a["kwdefaults"].t)),
             ("python.kwargs_is_a_dict", wf_dict(st, a["kwargs"].t)),
             ("checker.snapshot_names_distinct", z3.ForAll([i, j], z3.Implies(
                 z3.And(i >= 0, i < j, j < z3.Length(Sl)), attr(st, Sl[i], "name") != attr(st, Sl[j], "name")))),
